@@ -115,6 +115,7 @@ package gem
 //@   ensures number: strconv.Atoi(part).1 == nil ==> result.isNumeric && result.numValue == strconv.Atoi(part).0 && result.value == part   [C03 C13]
 //@   ensures letters: strconv.Atoi(part).1 != nil ==> !result.isNumeric && result.value == strings.ToLower(part)   [C13]
 //@ func removeTrailingZeros
+//@   loop 1 decreases len(segments)   // termination (C06)
 //@   loop 1 invariant len(segments) <= len(old(segments)) && (len(old(segments)) >= 1 ==> len(segments) >= 1) && (forall i int :: 0 <= i && i < len(segments) ==> segments[i] == old(segments)[i]) && (forall i int :: len(segments) <= i && i < len(old(segments)) ==> old(segments)[i].isNumeric && old(segments)[i].numValue == 0)
 //@   ensures prefix: len(result) <= len(segments) && (forall i int :: 0 <= i && i < len(result) ==> result[i] == segments[i])   [C13]
 //@   ensures keeps-first: len(segments) >= 1 ==> len(result) >= 1   [C13]
